@@ -246,6 +246,117 @@ def gen_raw_case(rng):
     return '%s:%s:%s:%s|%s' % (K, hexs(pre), hexs(rest), mode, ' '.join(toks))
 
 
+# boundary stream: pieces (one format_to call = one value text or one literal) whose WRITTEN LENGTH sits
+# on and next to powers of two — the sizes at which a sink's buffer handling changes
+BOUNDARY_LENS = [15, 16, 17, 31, 32, 33, 63, 64, 65, 127, 128, 129, 255, 256, 257, 1023, 1024, 1025, 4095, 4096, 4097]
+PLAIN = [b for b in range(1, 256) if b not in ESCAPED]
+
+
+def f_bits(v):
+    import struct
+    return struct.unpack('<Q', struct.pack('<d', v))[0]
+
+
+def float_with_f_length(rng, L, neg):
+    """bit pattern of a finite double whose "%f" text has exactly L characters (8 <= L <= 316)"""
+    d = L - 7 - (1 if neg else 0)                   # integer digits
+    if d < 1 or d > 309:
+        return None
+    for _ in range(50):
+        if d == 1:
+            v = rng.choice([0.0, 0.5, 1.0, 9.25, rng.random() * 9])
+        else:
+            try:
+                v = float(int(rng.uniform(1.0, 9.99) * 10 ** 15) * 10 ** (d - 16)) if d >= 16 \
+                    else float(rng.randrange(10 ** (d - 1), 10 ** d)) + rng.choice([0, .5, .25])
+            except OverflowError:
+                continue
+        if neg:
+            v = -v
+        if len('%f' % v) == L:
+            return f_bits(v)
+    return None
+
+
+def string_with_show_length(rng, L, nesc):
+    """String value whose String_Show text (two quotes, escapes doubled) has exactly L characters"""
+    n = L - 2 - 2 * nesc
+    if n < 0:
+        return None
+    bs = [rng.choice(PLAIN) for _ in range(n)] + [rng.choice(ESCAPED) for _ in range(nesc)]
+    rng.shuffle(bs)
+    return bs
+
+
+def boundary_pieces(rng, lens):
+    """(token, is_numeric) for every writer and every length"""
+    out = []
+    for L in lens:
+        for nesc in (0, rng.choice([1, 2, 3, 5])):
+            bs = string_with_show_length(rng, L, nesc)
+            if bs is not None:
+                out.append(('$s' + hexs(bs), False))
+        for neg in (0, 1):
+            b = float_with_f_length(rng, L, neg)
+            if b is not None:
+                out.append(('$f%016x' % b, True))
+        z = gen_int(rng, I64MIN, I64MAX)
+        out.append(('N%dli/li:%d' % (L, z), True))
+        out.append(('N0%dld/ld:%d' % (L, gen_int(rng, I64MIN, I64MAX)), True))
+        out.append(('N%dlx/lx:%d' % (L, gen_int(rng, 0, I64MAX)), True))
+        if L <= 300:
+            out.append(('N%d.3f/lf:%016x' % (L, gen_float(rng, False)), True))
+        # a literal piece of that length (first character cannot continue a number)
+        out.append(('L' + hexs([rng.choice(SAFE_FIRST)] + [rng.choice(LIT_CHARS[:95]) for _ in range(L - 2)] + [ord('|')]), None))
+    return out
+
+
+def boundary_second(rng):
+    return rng.choice(['$i%d' % gen_int(rng, I64MIN, I64MAX), '$s' + hexs(gen_bytes(rng, 12)), '$f%016x' % gen_float(rng, False),
+                       '$i7', '$s6162'])
+
+
+def arrange(rng, tok, numeric, K, start, follow):
+    pre = [rng.randrange(1, 256) for _ in range(start)]
+    if numeric is None:                      # a literal piece: put values around it
+        toks = [boundary_second(rng), tok, boundary_second(rng)] if follow else [tok, boundary_second(rng)]
+        rest = []
+    else:
+        toks = [tok]
+        rest = []
+        if follow:
+            toks += ['L' + hexs(rng.choice([[44, 32], [59], [32], [124], [37], [44]])), boundary_second(rng)]
+            if toks[-1][1] in 'if':
+                rest = rng.choice([[], [44]])
+        elif numeric:
+            rest = rng.choice([[], [44, 120]])
+    return '%s:%s:%s:%s|%s' % (K, hexs(pre), hexs(rest), rng.choice('GE'), ' '.join(toks))
+
+
+def gen_boundary(rng, quick):
+    cases = []
+    for tok, numeric in boundary_pieces(rng, BOUNDARY_LENS):
+        big = len(tok) > 2500
+        for K in 'SF':
+            for start in (0, rng.randrange(1, 41)):
+                for follow in (False, True):
+                    if quick and big and (K == 'F' and not follow or start and not follow):
+                        continue             # the 4 KiB pieces: fewer arrangements in the quick tier
+                    cases.append(arrange(rng, tok, numeric, K, start, follow))
+    # every "%f" length 8..316: each decade of magnitude, both signs; arrangements rotate
+    n = 0
+    for d in range(1, 310):
+        for neg in (0, 1):
+            b = float_with_f_length(rng, d + 7 + neg, neg)
+            if b is None:
+                continue
+            combos = [(K, st, fo) for K in 'SF' for st in (0, 1) for fo in (False, True)]
+            for (K, st, fo) in ([combos[n % 8], combos[(n + 3) % 8]] if quick else combos):
+                cases.append(arrange(rng, '$f%016x' % b, True, K, rng.randrange(1, 41) if st else 0, fo))
+            n += 1
+    return cases
+
+
 # ---------------------------------------------------------------------------------------------
 def parse_case(case):
     hd, body = case.split('|', 1)
@@ -438,6 +549,8 @@ CORPUS = [
     'F:::G|$i7 L2c20 N8.3f/lf:400921fb54442d18',      # D22
     'S:::G|$i5 L25 $i7',                              # D23: "%%" advanced the position by 2
     'F:6d::G|L2025 N+li/li:10000000000',              # D23 (shrunk replay)
+    'S::2c78:E|$f4bb84900df3f6d36',                   # a %f text of exactly 64 characters (seeded change: 64-byte stack buffer in String_Format_To)
+    'S:7070::G|N064ld/ld:-42 L2c20 $s6162',           # a zero-padded Int of exactly 64 characters, then a separator and a String
     'S:7070:2c:G|$i123 L2c20 $s610a62 L3b $f405edd2f1a9fbe77',
     'S:::G|$i-9223372036854775808 L20 $i9223372036854775807',
     'S:::G|$s070809' + '0a0b0c0d5c27223f' + ' L2c $s ' + 'L2c $sff80fe25',
@@ -455,7 +568,9 @@ def run(ctx):
         'values) and random exponent/mantissa) written with %$ or a numeric specification (flags + space 0 #, width, precision, l), '
         'separated by literal text (printable ASCII incl. %, white space inside and at the end) that cannot continue a numeric token, at start positions 0..40 behind arbitrary bytes, followed by '
         'arbitrary trailing text, through a String or a File, in one print_to/scan_from call or item by item with show_to/look_from; '
-        'plus every one-byte String; plus raw numeric text (white space, signs, 0x/0 prefixes, up to 24 digits, exponents -345..330, trailing junk) '
+        'plus a boundary stream: single pieces (String show text, %f text of every length 8..316 = each decade of magnitude in both signs, '
+        'Ints with width / zero-pad / hex specs, literals) whose written length is 2^k-1, 2^k, 2^k+1 for k = 4..12, alone and followed by a '
+        'separator and a second value, at start 0 and > 0, String and File; plus every one-byte String; plus raw numeric text (white space, signs, 0x/0 prefixes, up to 24 digits, exponents -345..330, trailing junk) '
         'read with d i u x o (with and without l) and f/lf directives, for the correspondence of the scanner model only; a case is non-trivial when it has more than one value, or a String containing an escaped byte or '
         'a byte >= 0x80, or an Int that is negative or >= 2^31, or a Float that is not an integer below 2^53; '
         'distinct = distinct implementation transcripts')
@@ -500,6 +615,14 @@ def run(ctx):
         raise RuntimeError('corpus case not well-formed: %r' % bad[:1])
     d.feed(CORPUS, 'corpus')
     rng = ctx.rng
+    # boundary lengths of single pieces, every writer, alone and followed by a separator and a second value,
+    # start position 0 and > 0, String and File
+    bnd = gen_boundary(rng, quick)
+    for c in bnd:
+        assert wellformed(c), c[:300]
+    for i in range(0, len(bnd), 2000):
+        d.feed(bnd[i:i + 2000], 'boundary')
+    ctx.cov['boundary_cases'] = len(bnd)
     # every one-byte String, alone, String and File
     d.feed(['%s:::%s|$s%02x' % (rng.choice('SF'), rng.choice('GE'), b) for b in range(1, 256)], 'bytes')
     # two-byte Strings: a sample (quick) or all of them (thorough)
